@@ -43,8 +43,8 @@ theorem runBranches_zero (env : Env) (bs : List Json) (params ctx : Json) (st : 
     runBranches env 0 bs params ctx st = (.error .fuel, st) := by simp [runBranches]
 
 theorem runItems_zero (env : Env) (proc : Json) (sel : Option Json) (input : Json) (items : List Json) (i mc : Nat)
-    (be : Rat) (ctx : Json) (st : St) :
-    runItems env 0 proc sel input items i mc be ctx st = (.error .fuel, st) := by simp [runItems]
+    (be : Rat) (ctx : Json) (bad : Bool) (st : St) :
+    runItems env 0 proc sel input items i mc be ctx bad st = (.error .fuel, st) := by simp [runItems]
 
 /-- fuel exhaustion of a branch, or of the later branches, is fuel exhaustion of the fan-out -/
 theorem fanCombine_fuel_left (t : Rat) (rest : Except Res (List Json)) (st2 : St) (tOk : Rat) :
@@ -110,7 +110,9 @@ theorem handleErr_step
       handleErr env (n + 1) states name state data ctx retries e msg st := by
   simp only [handleErr]
   split
-  · exact hF _ _ _ _ _
+  · split
+    · intro _; trivial
+    · exact hF _ _ _ _ _
   · split
     · intro _; trivial
     · split
@@ -192,7 +194,7 @@ local macro "auto_step" : tactic => `(tactic|
     | exact hL _ _ _ _ _ _ _
     | exact hF _ _ _ _ _
     | exact joinAfter_step env n states hJ _ _ _ _ _ _ _ (hB (by assumption) _ _ _ _)
-    | exact joinAfter_step env n states hJ _ _ _ _ _ _ _ (hI (by assumption) _ _ _ _ _ _ _ _ _)
+    | exact joinAfter_step env n states hJ _ _ _ _ _ _ _ (hI (by assumption) _ _ _ _ _ _ _ _ _ _)
     | (intro _; trivial)))
 
 theorem runState_step (state : Json)
@@ -214,9 +216,9 @@ theorem runState_step (state : Json)
     (hB : stateType state = S "Parallel" → ∀ bs params ctx st,
       (runBranches env n bs params ctx st).1 ≠ Except.error Res.fuel →
       runBranches env (n + 1) bs params ctx st = runBranches env n bs params ctx st)
-    (hI : stateType state = S "Map" → ∀ proc sel input items i mc be ctx st,
-      (runItems env n proc sel input items i mc be ctx st).1 ≠ Except.error Res.fuel →
-      runItems env (n + 1) proc sel input items i mc be ctx st = runItems env n proc sel input items i mc be ctx st)
+    (hI : stateType state = S "Map" → ∀ proc sel input items i mc be ctx bad st,
+      (runItems env n proc sel input items i mc be ctx bad st).1 ≠ Except.error Res.fuel →
+      runItems env (n + 1) proc sel input items i mc be ctx bad st = runItems env n proc sel input items i mc be ctx bad st)
     (name : Str) (data ctx : Json) (retries : Nat) (st : St) :
     (runState env (n + 1) states name state data ctx retries st).1 ≠ Res.fuel →
     runState env (n + 1 + 1) states name state data ctx retries st =
@@ -295,17 +297,20 @@ theorem runItems_step (env : Env) (n : Nat)
     (hF : ∀ states name data ctx retries st,
       (runFrom env n states name data ctx retries st).1 ≠ Res.fuel →
       runFrom env (n + 1) states name data ctx retries st = runFrom env n states name data ctx retries st)
-    (hI : ∀ proc sel input items i mc be ctx st,
-      (runItems env n proc sel input items i mc be ctx st).1 ≠ Except.error Res.fuel →
-      runItems env (n + 1) proc sel input items i mc be ctx st = runItems env n proc sel input items i mc be ctx st)
-    (proc : Json) (sel : Option Json) (input : Json) (items : List Json) (i mc : Nat) (be : Rat) (ctx : Json) (st : St) :
-    (runItems env (n + 1) proc sel input items i mc be ctx st).1 ≠ Except.error Res.fuel →
-    runItems env (n + 1 + 1) proc sel input items i mc be ctx st =
-      runItems env (n + 1) proc sel input items i mc be ctx st := by
+    (hI : ∀ proc sel input items i mc be ctx bad st,
+      (runItems env n proc sel input items i mc be ctx bad st).1 ≠ Except.error Res.fuel →
+      runItems env (n + 1) proc sel input items i mc be ctx bad st = runItems env n proc sel input items i mc be ctx bad st)
+    (proc : Json) (sel : Option Json) (input : Json) (items : List Json) (i mc : Nat) (be : Rat) (ctx : Json)
+    (bad : Bool) (st : St) :
+    (runItems env (n + 1) proc sel input items i mc be ctx bad st).1 ≠ Except.error Res.fuel →
+    runItems env (n + 1 + 1) proc sel input items i mc be ctx bad st =
+      runItems env (n + 1) proc sel input items i mc be ctx bad st := by
   cases items with
   | nil => intro _; simp [runItems]
   | cons item items =>
     simp only [runItems]
+    split
+    · intro _; trivial
     split
     · intro _; trivial
     · rename_i params hp
@@ -318,7 +323,7 @@ theorem runItems_step (env : Env) (n : Nat)
         cases hr : runFrom env n states start params ctx 0 ((st0.push (.iterStarted (ctxStateName ctx) i)).startBranch) with
         | mk r1 s1 =>
           rw [hr] at h
-          cases hrest : runItems env n proc sel input items (i + 1) mc (rmax be s1.clock) ctx
+          cases hrest : runItems env n proc sel input items (i + 1) mc (rmax be s1.clock) ctx (bad || isFailed r1)
               (((s1.iterEnd (ctxStateName ctx) i r1).endBranch (isFailed r1)).at st0.clock) with
           | mk rest s2 =>
             simp only [hrest] at h
@@ -329,7 +334,7 @@ theorem runItems_step (env : Env) (n : Nat)
             have e1 := hF states start params ctx 0 ((st0.push (.iterStarted (ctxStateName ctx) i)).startBranch)
               (by rw [hr]; exact hr1)
             rw [e1, hr]
-            have e2 := hI proc sel input items (i + 1) mc (rmax be s1.clock) ctx
+            have e2 := hI proc sel input items (i + 1) mc (rmax be s1.clock) ctx (bad || isFailed r1)
               (((s1.iterEnd (ctxStateName ctx) i r1).endBranch (isFailed r1)).at st0.clock) (by rw [hrest]; exact hrest1)
             simp only [e2, hrest]
       · intro _; trivial
@@ -360,9 +365,9 @@ structure StepMono (env : Env) (n : Nat) : Prop where
   runBranches : ∀ bs params ctx st,
     (runBranches env n bs params ctx st).1 ≠ Except.error Res.fuel →
     runBranches env (n + 1) bs params ctx st = runBranches env n bs params ctx st
-  runItems : ∀ proc sel input items i mc be ctx st,
-    (runItems env n proc sel input items i mc be ctx st).1 ≠ Except.error Res.fuel →
-    runItems env (n + 1) proc sel input items i mc be ctx st = runItems env n proc sel input items i mc be ctx st
+  runItems : ∀ proc sel input items i mc be ctx bad st,
+    (runItems env n proc sel input items i mc be ctx bad st).1 ≠ Except.error Res.fuel →
+    runItems env (n + 1) proc sel input items i mc be ctx bad st = runItems env n proc sel input items i mc be ctx bad st
 
 theorem stepMono (env : Env) (n : Nat) : StepMono env n := by
   induction n with
@@ -374,7 +379,7 @@ theorem stepMono (env : Env) (n : Nat) : StepMono env n := by
     · intro states name state data ctx retries st h; exact absurd (by rw [runState_zero]) h
     · intro states name state data ctx retries r st h; exact absurd (by rw [joinAndLeave_zero]) h
     · intro bs params ctx st h; exact absurd (by rw [runBranches_zero]) h
-    · intro proc sel input items i mc be ctx st h; exact absurd (by rw [runItems_zero]) h
+    · intro proc sel input items i mc be ctx bad st h; exact absurd (by rw [runItems_zero]) h
   | succ n ih =>
     exact {
       runFrom := fun states => runFrom_step env n states (fun name state data ctx retries st _ =>
@@ -450,11 +455,11 @@ theorem runBranches_mono (env : Env) (n m : Nat) (h : n ≤ m) (bs : List Json) 
     (fun k => (stepMono env k).runBranches bs params ctx st) n m h
 
 theorem runItems_mono (env : Env) (n m : Nat) (h : n ≤ m) (proc : Json) (sel : Option Json) (input : Json)
-    (items : List Json) (i mc : Nat) (be : Rat) (ctx : Json) (st : St) :
-    (runItems env n proc sel input items i mc be ctx st).1 ≠ Except.error Res.fuel →
-    runItems env m proc sel input items i mc be ctx st = runItems env n proc sel input items i mc be ctx st :=
-  mono_of_step (fun k => runItems env k proc sel input items i mc be ctx st) (fun x => x.1 = Except.error Res.fuel)
-    (fun k => (stepMono env k).runItems proc sel input items i mc be ctx st) n m h
+    (items : List Json) (i mc : Nat) (be : Rat) (ctx : Json) (bad : Bool) (st : St) :
+    (runItems env n proc sel input items i mc be ctx bad st).1 ≠ Except.error Res.fuel →
+    runItems env m proc sel input items i mc be ctx bad st = runItems env n proc sel input items i mc be ctx bad st :=
+  mono_of_step (fun k => runItems env k proc sel input items i mc be ctx bad st) (fun x => x.1 = Except.error Res.fuel)
+    (fun k => (stepMono env k).runItems proc sel input items i mc be ctx bad st) n m h
 
 /-- the outcome of an execution does not depend on the fuel, once there is enough of it -/
 theorem runCore_mono (env : Env) (n m : Nat) (h : n ≤ m) (asl input ctx : Json) :
@@ -462,7 +467,7 @@ theorem runCore_mono (env : Env) (n m : Nat) (h : n ≤ m) (asl input ctx : Json
   unfold runCore
   split
   · rename_i start states h1 h2
-    exact runFrom_mono env n m h states start input ctx 0 {}
+    exact runFrom_mono (env.forMachine asl) n m h states start input ctx 0 {}
   · intro _; trivial
 
 theorem run_fuel_independent (env : Env) (n m : Nat) (h : n ≤ m) (asl input ctx : Json) :
